@@ -266,6 +266,12 @@ class CallListerVisitor(ast.NodeVisitor):
         name = getattr(node, 'name', None)
         if name is not None: # def statements rebind their name
             self.namespace[name] = Unknown(node)
+        # decorators and default values are evaluated in the enclosing scope
+        for expr in getattr(node, 'decorator_list', []):
+            self.visit(expr)
+        for expr in node.args.defaults + node.args.kw_defaults:
+            if expr is not None:
+                self.visit(expr)
         self.namespace = Namespace(self.namespace)
         self.process_parameters(node.args)
         body = node.body
